@@ -324,7 +324,7 @@ pub fn run(ctx: &Ctx) -> Report {
   let property = "C16";
   let mut report = Report::new(property, &ctx.tier, "model_checking");
   let cfgs = config_set(ctx.thorough());
-  let budget_total: u64 = if ctx.thorough() { 3000 } else { 50 };
+  let budget_total: u64 = if ctx.thorough() { 1200 } else { 50 };
 
   if let Some(path) = &ctx.replay {
     let v: Value = serde_json::from_str(&std::fs::read_to_string(path).expect("read replay")).expect("json");
